@@ -59,6 +59,7 @@ RULE = (
     "read contributes; distinct by hash of (overlapping alignment records, locus SNVs, configuration)"
 )
 LEVEL_TEXT += " With --use-base-phred-scores (half of the quick datasets) the de-duplicated (row, count) pairs expand one-to-one to the per-read probabilities the reads' own base qualities give."
+LEVEL_TEXT += ' Session 4: every twelfth dataset is one wide locus of 130-200 SNVs with reads of 40-110 bases (matrix columns beyond int8).'
 ASSUMPTIONS = [
     "an alignment overlaps a locus iff its reference span [pos, end) intersects [locus.start, locus.stop) (what a BAM region fetch returns)",
     "secondary alignments (0x100) are not excluded: the statement does not list them",
@@ -437,16 +438,21 @@ def case_params(seed, shard, index):
         "empty_sample": bool(spb <= 2 and rng.random() < 0.6),
         "cross_ids": bool(spb >= 2 and rng.random() < 0.5),
     }
+    # session 4: every twelfth dataset is one wide locus of 130-200 SNVs (column numbers beyond int8 in the read matrix)
+    p["wide"] = bool(g % 12 == 7)
+    if p["wide"]:
+        p.update(n_contigs=1, n_loci=1, n_bams=1)
     return rng, p
 
 
 def build_dataset(rng, p, root):
     clean = p["clean"]
+    wide = bool(p.get("wide"))
     ds = D.make_dataset(
         rng, root, n_samples=p["samples_per_bam"] * p["n_bams"], n_loci=p["n_loci"], ploidy=(2, 4), depth=(3, 12), n_contigs=p["n_contigs"],
-        contig_len=420, hostile=0.3 if clean else 0.6, err=0.0 if clean else 0.03, flags=True, paired=0.0 if clean else 0.45,
-        rgs_per_sample=p["rgs"], samples_per_bam=p["samples_per_bam"], snv_range=(0, p["snv_hi"]), multi_allelic=0.4, read_len=(12, 45),
-        mapq_threshold=p["t"], mate_disagree=0.4,
+        contig_len=1300 if wide else 420, hostile=0.3 if clean else 0.6, err=0.0 if clean else 0.03, flags=True, paired=0.0 if clean else 0.45,
+        rgs_per_sample=p["rgs"], samples_per_bam=p["samples_per_bam"], snv_range=(130, 200) if wide else (0, p["snv_hi"]), multi_allelic=0.4,
+        read_len=(40, 110) if wide else (12, 45), mapq_threshold=p["t"], mate_disagree=0.4, **({"locus_len": (280, 380)} if wide else {}),
     )
     info = {"boundary": {}}
     for bi, bam in enumerate(ds.bams):
@@ -1245,6 +1251,8 @@ def run_dataset_case(tier, seed, shard, index, col, workname):
         ds, info = build_dataset(rng, p, root)
         pre = Pre(ds)
         col.count("datasets")
+        if p.get("wide"):
+            col.count("datasets_wide_locus_130_200_snvs")
         col.count("samples_per_bam_%d" % p["samples_per_bam"])
         col.count("datasets_rg_id_equals_other_sample_name", 1 if info.get("cross") else 0)
         col.count("same_name_in_two_read_groups_or_files", info.get("twins", 0))
